@@ -3,4 +3,4 @@ From LV Require Import Wire.C2SInput Session.InputDefs Session.ClipboardDefs.
 Require Import ExtrOcamlBasic.
 Extraction Language OCaml.
 Extraction "../build/ocaml/C18/model.ml"
-  wstep unlock_all init_server state_code out_view enc_out lvc_send_utf8 lvc_recv ztake.
+  wstep unlock_all init_server state_code out_view enc_out lvc_send_utf8 lvc_recv ztake lvc_write_all.
